@@ -132,6 +132,9 @@ class ConstantInterrupts(InterruptsBase):
                 equilibration period during which no data is recorded.
         """
         self.dt = float(dt)
+        if not self.dt > 0:
+            msg = "Duration `dt` between interrupts must be positive"
+            raise ValueError(msg)
         self.t_start = None if t_start is None else float(t_start)
         self._t_next: float | None = None  # next time it should be called
 
